@@ -20,6 +20,21 @@ P = {
  "C05": ("differential runtime monitor: tridiagonal code at Rat/CRat/f64/Complex vs dense twin and an exact Thomas-elimination model deciding 'solution or zero-pivot refusal' per case",
          "All four constructors, sizes 1..12 (1 and 2 weighted), zero pivots forced at every elimination step: access, convert, transpose, det, products, arithmetic equal the dense twin; solve returns the exact solution or panics naming a zero pivot exactly when the model meets one; f64 exact class mirrors the Rat model, dominant class backward stable.",
          "Trusted: harness exact Thomas model; message pattern /zero|pivot|singular/i.", "5/C05"),
+ "C06": ("history monitor with structural invariant checks: real Sparse<Rat> put through construction/insert/overwrite/scale/transpose histories in lock step with a BTreeMap model; CSC well-formedness and four views checked after every step",
+         "After every step of every history (all shapes [0,8]^2, exhaustive patterns up to 3x3, every permutation of triplet lists up to 6) the public CSC fields are well-formed and get/to_triplets/to_dense/col_index equal the model.",
+         "Trusted: BTreeMap model; duplicate-free inputs as stated by the property; from_vecs fed valid arrays.", "5/C06"),
+ "C07": ("differential runtime monitor: sparse products of the real code at exact rationals vs dense model for every shape up to 10x10, prime-valued vectors, adjoint identity, scaling metamorphism; f64 against double-double",
+         "multiply, transpose_multiply, transpose().multiply and scaled variants equal the dense products exactly over Rat (and on integer f64 data), within 4*nnz*u*sum|a||x| on general f64 data; <y,Ax>=<A^T y,x> through library results.",
+         "Trusted: dense model from the same entry map; double-double reference.", "5/C07"),
+ "C08": ("runtime monitor of the implication 'Ok => solved': every Ok outcome of the five solver variants on generated systems of all kinds is re-judged with a double-double true residual from a dense copy; budget replay at the client boundary yields the iterates for the drift term; determinism and zero-budget metamorphic checks",
+         "Whenever a solver answers Ok(it): it<=max_iter, x finite, true relative residual <= tol + drift allowance (256 units, QMR 16384 units of u*(it+1)*(||A||_F*max_k||x_k||+||b||)/||b||*). Zero budget leaves x bit-identical; repeated calls are bit-identical.",
+         "Trusted: dense copy + double-double residual; drift constants calibrated on 3.6 M outcomes (worst 2.3 / QMR 58).", "5/C08"),
+ "C09": ("runtime monitor on certified well-posed systems (strict diagonal dominance certificates computed from the entries): convergence within a dimension-proportional budget, agreement with the dense direct solver, degenerate starts on exactly representable data",
+         "On SPD/strictly dominant systems every applicable solver must answer Ok within 10n+100 iterations and agree with Matrix::solve_basic within kappa_F*(tol+drift); an exact initial guess and (b=0,x0=0) must be accepted with x finite and still a solution.",
+         "QMR demanded for tol>=1e-8 only (attainable-accuracy floor of the algorithm); isolated Lanczos breakdowns (not reproducing on 2 of 3 fresh rhs) are logged, not flagged; initial guesses at the scale of the solution.", "5/C09"),
+ "C18": ("call-log runtime monitor: closures passed to jacobian/jacobian_cmplx record every evaluation point; exactness on dyadic affine maps certified by an integer model; difference-quotient and derivative-bound oracles",
+         "All 36 shapes (m,n) in [1,6]^2 x {f64,Cmplx} x all steps 2^-4..2^-26 and 1e-8: shape m x n, n+1 calls at x and x+delta*e_j with every other coordinate restored, J==M exactly for dyadic affine maps, entries equal the double-double difference quotient (512u) and lie within the rigorous truncation+rounding bound for smooth maps.",
+         "Trusted: integer model of the logged calls on the 2^-29 grid; second-derivative bounds per term.", "5/C18"),
 }
 ORDER = ["C%02d" % i for i in range(1, 21)]
 NOT_BUILT_REASON = "monitor for this property is designed (DESIGN.md section 5) but not yet built in this revision; not claimed"
